@@ -248,6 +248,8 @@ let with_misses (f : unit -> String.t) : unit =
 
 let chunk_str (c : chunk) : String.t = (if c.checked then "" else "u:") ^ hex_of_bytes c.data
 
+let css_handlers_env = lazy (build_handlers css_acceptors css_handler_defs [])
+
 let handle_line (line : String.t) : unit =
   match split_ws line with
   | [] -> ()
@@ -341,10 +343,10 @@ let handle_line (line : String.t) : unit =
       | _ -> failwith ("unknown function " ^ name) in
     print_string ("V " ^ out ^ "\n")
   | ["KWH"; fn; hex] ->
-    (* a keyword-shape handler of css/handlers.go, by function name *)
-    (match List.find_opt (fun e -> string_of_chars (fst e) = fn) css_kw_handlers with
-     | Some e -> print_string (if kw_shape_handler css_acceptors (snd e) (bytes_of_hex hex) then "V 1\n" else "V 0\n")
-     | None -> print_string "ERR no-such-keyword-handler\n")
+    (* a handler of css/handlers.go whose body is a disjunction of conditions (GenCss.css_handler_defs), by function name *)
+    (match List.find_opt (fun e -> string_of_chars (fst e) = fn) (Lazy.force css_handlers_env) with
+     | Some e -> print_string (if snd e (bytes_of_hex hex) then "V 1\n" else "V 0\n")
+     | None -> print_string "ERR no-such-handler-definition\n")
   | ["RC"; vals; sets] ->
     (* recursiveCheck: components (comma-separated hex, "_" = none), sub-handlers as finite sets (";"-separated lists) *)
     let hx s = if s = "e" then [] else bytes_of_hex s in   (* "e" = the empty string *)
